@@ -16,6 +16,8 @@ RULE = ("family 'cell': (class, parameter set) cells over all 19 concrete distri
         "sweep (single, adjacent pair, repeated at stride 2 and 3, run of 4); family 'domain': out-of-domain parameter sets must be refused at construction; family 'wrap': every "
         "QuantityDist wrapper; non-trivial(cell) = the splice sweep hit >= 10 spliced positions and the draw "
         "consumes >= 1 uniform; distinct = canonical (class, parameters) hash")
+RULE += '; the instrumented stream is a user-written StreamInterface with positional-only methods and parameter names of its own'
+RULE += '; a stream that raises once in the middle of a draw; the domain family has NaN in every range-constrained parameter position'
 ASSUMPTIONS = ["numeric envelope: shape-like parameters in [0.05, 50], scales in [1e-3, 1e3], Poisson rate <= 2500, Erlang k <= 400, "
                "Binomial n <= 200, |mu| <= 5 and sigma in [1e-3, 5] for (log-)normal; beyond it float range, not sampler logic, decides",
                "'old stream never consumed again' is observed over the next 200 draws",
@@ -116,6 +118,17 @@ BAD = {
     "DistUniform": [[1, 1], [2, 1], ["a", 1]],
     "DistWeibull": [[0, 1], [1, 0], [-1, 1], [1, "b"]],
 }
+# not-a-number in every parameter position that has a documented range (NaN satisfies no range; the location parameter mu of
+# the normal family has none and is not probed)
+_NAN_BASE = {"DistBernoulli": [0.5], "DistBeta": [2.0, 3.0], "DistBinomial": [5, 0.5], "DistDiscreteUniform": [1, 6], "DistErlang": [1.0, 3],
+             "DistExponential": [2.0], "DistGamma": [2.0, 1.0], "DistGeometric": [0.5], "DistLogNormal": [0.0, 1.0], "DistNegBinomial": [3, 0.5],
+             "DistNormal": [0.0, 1.0], "DistNormalTrunc": [0.0, 1.0, -1.0, 1.0], "DistPearson5": [2.0, 1.0], "DistPearson6": [2.0, 3.0, 1.0],
+             "DistPoisson": [3.0], "DistTriangular": [0.0, 0.5, 1.0], "DistUniform": [0.0, 1.0], "DistWeibull": [2.0, 1.0]}
+for _c, _args in _NAN_BASE.items():
+    for _i in range(len(_args)):
+        if _i == 0 and _c in ("DistNormal", "DistLogNormal", "DistNormalTrunc"):
+            continue
+        BAD[_c] = BAD[_c] + [[("@nan" if _j == _i else _a) for _j, _a in enumerate(_args)]]
 CLASSES = sorted(GEN)
 
 
@@ -202,6 +215,8 @@ def run_case(case, ctx):
     fam = case["fam"]
     if fam == "domain":
         ctx.count("domain_probes")
+        import math
+        case = dict(case, args=[math.nan if a == "@nan" else a for a in case["args"]])
         try:
             _mk(case["cls"], CountingStream(1), case["args"])
         except (ValueError, TypeError):
@@ -345,6 +360,36 @@ def run_case(case, ctx):
         if d.stream is not own or c.stream is not other:
             ctx.viol(f"stream-getter-after-repoint:{cls}", {**info, "note": "after a copy was given its own stream"})
             return
+    # ---- a stream fault in the middle of a draw (the stream raises once, before delivering): the exception reaches the caller
+    # and the draws that follow are computed from the numbers delivered from then on - those of a fresh instance on a stream
+    # in the same state
+    from vlib.streams_mon import StreamFault
+    for pre in (0, 1, 2, 3):
+        for j in (0, 1, 2):
+            s_ = CountingStream(seed + 13)
+            d = _mk(cls, s_, args)
+            for _ in range(pre):
+                d.draw()
+            s_.fail_at = s_.calls + j
+            try:
+                d.draw()
+            except StreamFault:
+                pass
+            except Exception as e:
+                ctx.viol(f"stream-fault-surfaces-as-another-exception:{cls}:{type(e).__name__}", {**info, "pre_draws": pre, "fault_at_call": j, "exc": repr(e)})
+                return
+            if not s_.failed:
+                s_.fail_at = None
+                continue            # this draw takes fewer numbers than j + 1
+            ctx.count("stream_faults_injected")
+            ref = CountingStream(seed + 13)
+            ref.restore_state(s_.save_state())
+            fresh = _mk(cls, ref, args)
+            for k in range(12):
+                a, b = d.draw(), fresh.draw()
+                if fx(a) != fx(b):
+                    ctx.viol(f"draws-after-a-stream-fault-differ-from-fresh:{cls}", {**info, "pre_draws": pre, "fault_at_call": j, "draw_index": k, "got": fx(a), "fresh": fx(b)})
+                    return
     # ---- the same stream object re-seeded and assigned again (what a model does between replications with long-lived
     # distribution objects): the draws that follow equal those of a fresh instance on an equally seeded stream
     for pre in (1, 2, 3):
